@@ -61,8 +61,14 @@ func ascending(b []byte) string {
 		}
 		switch x := t.(type) {
 		case xml.StartElement:
+			rawName := func(n xml.Name) string {
+				if n.Space != "" {
+					return n.Space + ":" + n.Local // RawToken splits "xmlns:a" at the colon
+				}
+				return n.Local
+			}
 			for i := 1; i < len(x.Attr); i++ {
-				if x.Attr[i-1].Name.Local > x.Attr[i].Name.Local {
+				if rawName(x.Attr[i-1].Name) > rawName(x.Attr[i].Name) {
 					return "attributes of <" + x.Name.Local + "> are not in ascending order"
 				}
 			}
@@ -259,6 +265,26 @@ func c16Judge(op, impl, model string) Verdict {
 	return v
 }
 
+// addNs puts two to four xmlns attributes (and one that sorts before them) on some map nodes.
+func addNs(r *Rng, v interface{}) {
+	switch x := v.(type) {
+	case map[string]interface{}:
+		for _, e := range x {
+			addNs(r, e)
+		}
+		if r.P(50) {
+			for _, k := range []string{"-xmlns", "-xmlns:a", "-xmlns:b", "-xmlns:zz"}[:2+r.Intn(3)] {
+				x[k] = "urn:" + k[1:]
+			}
+			x["-id"] = "1"
+		}
+	case []interface{}:
+		for _, e := range x {
+			addNs(r, e)
+		}
+	}
+}
+
 func c16Gen(r *Rng, n int) []string {
 	var ops []string
 	for len(ops) < n {
@@ -267,6 +293,10 @@ func c16Gen(r *Rng, n int) []string {
 			m = r.c03Map(1)
 		} else {
 			m = r.xmlShapedMap()
+		}
+		if r.P(30) {
+			// namespace declarations are ordinary attributes for the encoder
+			addNs(r, m)
 		}
 		g := c01Gen0
 		g.SeqShape = true
